@@ -89,6 +89,13 @@ CHECKS.update({
    "deterministic simulation: network fault sequences on the dial seam + fake clock"),
 })
 
+CHECKS.update({
+ "C20": ("exploration", "7.20",
+   "two instruments on the same seeded schedules of mixed traffic (hits, fetches, passes, Accept-Encoding and conditional variants, purges, repeated reloads, lifetimes of 1-2s): (1) the normal build with response-integrity, served-or-explained and immutability oracles (the same entry served twice to equal requests yields equal output); (2) a -race build in which the simulator's own synchronisation is hidden from the detector, so that serialised execution does not order accesses pike itself leaves unordered - a race is reported with the seed and schedule of the run in which the detector fired and replays in a fresh process.",
+   "race reports are attributed by stack: only reports whose innermost non-stdlib frames on both sides are pike's (or its dependencies') count, reports touching harness frames are counted as harness noise in the evidence; happens-before edges that pike's own dependencies create (sync.Pool of elton contexts, the logger's mutex) are real and stay visible to the detector",
+   "deterministic simulation + Go race detector with the scheduler's synchronisation hidden"),
+})
+
 PENDING = {}
 
 def main():
